@@ -8,7 +8,7 @@
    [lexpected OutAll (t,es)] = ListToken(tag t, es in iteration order);
    [lexpected OutLast (t,es)] = the token of iteration k-1 retagged t, or Token(None) tagged t when k = 0. *)
 From Coq Require Import List NArith ZArith Permutation.
-From SF Require Import Base.Str Base.Dec Tags.Model Gather.Model Gather.Proofs Loop.Model Loop.Proofs Loop.Net Loop.NetProofs.
+From SF Require Import Base.Str Base.Dec Tags.Model Gather.Model Gather.Proofs Loop.Model Loop.Proofs Loop.Net Loop.NetProofs Loop.NetReal.
 Import ListNotations.
 Local Open Scope string_scope. Local Open Scope list_scope.
 
@@ -92,6 +92,37 @@ Theorem C06_no_early_exit_nonvacuous :
   exists s, reach unit ex_lstep tt ex_cont [[0%N]] s /\ lgot s = true /\ emitted s = [[0%N]] /\ cterm s = true.
 Proof. exact ex_run. Qed.
 
+(* END TO END (Loop/NetReal.v): the wiring of Loop/Net.v with its loop output step instantiated by the model of
+   CWLLoopOutput{All,Last}Step.run ([rstep]: tags rendered to the strings the Python code sees, outputs parsed back),
+   a deterministic body ([val t] = the value it produces for the iteration tagged t) and any loop condition [cont].
+   For any family of instances (pairwise distinct, equal tag depth), in EVERY reachable state -- i.e. under every
+   interleaving of the seven moves -- :
+   (a) as long as the loop output step has not taken a termination token it has not terminated;
+   (b) once it has, every instance p ran exactly [k p] iterations, [k p] being the first index at which the
+       condition is false (0 and >= 10 included), and the step has emitted exactly one token per instance (as a
+       multiset): the values [val p.0 ... val p.(k p - 1)] in iteration order (all) / the last of them or null
+       (last), tagged p -- and only then terminated.
+   Proof: a second invariant (Inv3) giving every instance a phase (unstarted / its single control token in front of
+   the loop-when step / on its way back / decided) together with the exact multiset of its tokens that went
+   towards L, preserved by the seven moves; C06_no_early_exit; C06_step for what L makes of that multiset. *)
+Theorem C06_loop_network :
+  forall (pol : policy) (val : tag -> string) (cont : tag -> bool) (insts : list tag) (d : nat),
+  1 <= d -> (forall p, In p insts -> length p = d) -> NoDup insts ->
+  forall s, rreach pol val cont insts s ->
+  (lgot s = false -> lfinal (fst (ls s)) = None) /\
+  (lgot s = true ->
+     let k := kof s in
+     (forall p, In p insts -> (forall j, j < k p -> cont (itag p j) = true) /\ cont (itag p (k p)) = false) /\
+     Permutation (lout (fst (ls s))) (map (fun p => lexpected pol (p, iters val p (k p))) insts) /\
+     lfinal (fst (ls s)) = Some (match insts with [] => Skipped | _ => Completed end)).
+Proof. exact loop_network. Qed.
+(* a reachable state of that network in which L has taken the termination token: one instance, one iteration, the
+   iteration-termination token overtaking the iteration token on the way to L (16 moves) *)
+Theorem C06_loop_network_nonvacuous :
+  exists s, rreach OutAll ex_val ex_cont1 [[0%N]] s /\ lgot s = true /\
+            lout (fst (ls s)) = [ListTok "0" [Tok "0.0" "0.0"]] /\ kof s [0%N] = 1.
+Proof. exact ex_real_run. Qed.
+
 (* LoopCombinator: the first combination of an instance t gets t.0; the one built from the tokens of
    iteration c gets t.(c+1) -- for any state of the counters of the other instances, hence any interleaving *)
 Theorem C06_iteration_tags_first : forall im (t : tag),
@@ -135,6 +166,8 @@ Print Assumptions C06_no_early_exit_refuted.
 Print Assumptions C06_no_early_exit_partial.
 Print Assumptions C06_no_early_exit.
 Print Assumptions C06_loop_output_runs_until_term.
+Print Assumptions C06_loop_network.
+Print Assumptions C06_loop_network_nonvacuous.
 Print Assumptions C06_no_early_exit_nonvacuous.
 Print Assumptions C06_iteration_tags_first.
 Print Assumptions C06_iteration_tags_next.
